@@ -24,6 +24,7 @@ type vfsLoader struct {
 	mu    sync.Mutex
 	id    int
 	root  string
+	rel   bool // relative flavour: names without a leading slash, like loaders built on fs.FS (Abs is not idempotent for them)
 	files map[string]string
 	gets  []string
 }
@@ -31,6 +32,12 @@ type vfsLoader struct {
 // Abs works in the virtual tree (whose "/" is l.root on the real file system, so that OS access would be noticed):
 // rooted names are taken from the virtual root, others relative to the referring template; ".." cannot leave the root.
 func (l *vfsLoader) Abs(base, name string) string {
+	if l.rel {
+		if strings.HasPrefix(name, "/") {
+			return strings.TrimPrefix(path.Clean(name), "/")
+		}
+		return strings.TrimPrefix(path.Clean("/"+path.Dir(base)+"/"+name), "/")
+	}
 	virt := func(p string) string { return strings.TrimPrefix(p, l.root) }
 	var v string
 	switch {
@@ -155,122 +162,137 @@ func cmdC11Replay(args []string) {
 			fatal("bad vector", err)
 		}
 		rep.Vectors++
-		rep.Checked++
-		var loaders []*vfsLoader
-		usesImport := strings.Contains(string(raw), `"kind": "import"`) || strings.Contains(string(raw), `"kind":"import"`)
-		ctx := pongo2.Context{}
-		raws := map[string]string{}
-		// the files named by import references (resolved with the loader's own name rule)
-		importTargets := map[string]bool{}
-		if usesImport {
-			tmp := &vfsLoader{root: root}
-			for _, files := range v.Loaders {
-				for _, f := range files {
-					for _, it := range f.Items {
-						if it.Kind == "import" {
-							importTargets[tmp.Abs(root+"/"+strings.Join(f.Path, "/"), nameText(it.Name, root))] = true
+		for _, relFlavour := range []bool{false, true} {
+			root := root
+			if relFlavour {
+				root = ""
+			}
+			rep.Checked++
+			var loaders []*vfsLoader
+			usesImport := strings.Contains(string(raw), `"kind": "import"`) || strings.Contains(string(raw), `"kind":"import"`)
+			ctx := pongo2.Context{}
+			raws := map[string]string{}
+			// the files named by import references (resolved with the loader's own name rule)
+			importTargets := map[string]bool{}
+			if usesImport {
+				tmp := &vfsLoader{root: root, rel: relFlavour}
+				for _, files := range v.Loaders {
+					for _, f := range files {
+						for _, it := range f.Items {
+							if it.Kind == "import" {
+								importTargets[tmp.Abs(root+"/"+strings.Join(f.Path, "/"), nameText(it.Name, root))] = true
+							}
 						}
 					}
 				}
 			}
-		}
-		for li, files := range v.Loaders {
-			l := &vfsLoader{id: li + 1, root: root, files: map[string]string{}}
-			for _, f := range files {
-				src, lazy := itemsText(f.Items, root)
-				for k, n := range lazy {
-					ctx[k] = n
+			for li, files := range v.Loaders {
+				l := &vfsLoader{id: li + 1, root: root, rel: relFlavour, files: map[string]string{}}
+				for _, f := range files {
+					src, lazy := itemsText(f.Items, root)
+					for k, n := range lazy {
+						ctx[k] = n
+					}
+					full := src
+					if usesImport && (importTargets[root+"/"+strings.Join(f.Path, "/")] || importTargets[strings.Join(f.Path, "/")]) {
+						full = macroPrefix + src // the file an import names must export the macro
+					}
+					p := root + "/" + strings.Join(f.Path, "/")
+					if relFlavour {
+						p = strings.Join(f.Path, "/")
+					}
+					l.files[p] = full
+					raws[fmt.Sprintf("%d:%s", li+1, strings.Join(f.Path, "/"))] = full
 				}
-				full := src
-				if usesImport && importTargets[root+"/"+strings.Join(f.Path, "/")] {
-					full = macroPrefix + src // the file an import names must export the macro
-				}
-				p := root + "/" + strings.Join(f.Path, "/")
-				l.files[p] = full
-				raws[fmt.Sprintf("%d:%s", li+1, strings.Join(f.Path, "/"))] = full
+				loaders = append(loaders, l)
 			}
-			loaders = append(loaders, l)
-		}
-		set := pongo2.NewSet("c11", loaders[0], loaders[1])
-		rootName := nameText(v.Root, root)
-		var tpl *pongo2.Template
-		o := protect(func() (string, error) { var e error; tpl, e = set.FromFile(rootName); return "", e })
-		if o.class() == "ok" {
-			o = execute(tpl, ctx)
-		}
-		// expected output
-		var want strings.Builder
-		for _, piece := range v.Out {
-			var s string
-			if json.Unmarshal(piece, &s) == nil {
-				want.WriteString(s)
+			set := pongo2.NewSet("c11", loaders[0], loaders[1])
+			rootName := nameText(v.Root, root)
+			var tpl *pongo2.Template
+			o := protect(func() (string, error) { var e error; tpl, e = set.FromFile(rootName); return "", e })
+			if o.class() == "ok" {
+				o = execute(tpl, ctx)
+			}
+			// expected output
+			var want strings.Builder
+			for _, piece := range v.Out {
+				var s string
+				if json.Unmarshal(piece, &s) == nil {
+					want.WriteString(s)
+					continue
+				}
+				var rawPiece []interface{}
+				json.Unmarshal(piece, &rawPiece) // ["RAW", loader, path]
+				var segs []string
+				for _, x := range rawPiece[2].([]interface{}) {
+					segs = append(segs, x.(string))
+				}
+				want.WriteString(raws[fmt.Sprintf("%v:%s", rawPiece[1], strings.Join(segs, "/"))])
+			}
+			desc := func() string {
+				var parts []string
+				for li, l := range loaders {
+					var names []string
+					for p, c := range l.files {
+						names = append(names, strings.TrimPrefix(p, root)+"="+strings.TrimPrefix(c, macroPrefix))
+					}
+					sort.Strings(names)
+					parts = append(parts, fmt.Sprintf("loader%d{%s}", li+1, strings.ReplaceAll(strings.Join(names, " ; "), root, "")))
+				}
+				return strings.Join(parts, " ") + " root=" + strings.TrimPrefix(rootName, root)
+			}
+			key := "loaders: " + desc()
+			if relFlavour {
+				key = "loaders (relative names): " + desc()
+			}
+			det := map[string]interface{}{"vector": raw, "cmd": "c11-replay"}
+			if o.Panic != "" {
+				rep.viol(key+": panic "+firstLine(o.Panic), det)
 				continue
 			}
-			var rawPiece []interface{}
-			json.Unmarshal(piece, &rawPiece) // ["RAW", loader, path]
-			var segs []string
-			for _, x := range rawPiece[2].([]interface{}) {
-				segs = append(segs, x.(string))
+			if strings.Contains(o.Out, "CANARY") {
+				rep.viol(key+": output contains a file that no loader serves: "+o.Out, det)
+				continue
 			}
-			want.WriteString(raws[fmt.Sprintf("%v:%s", rawPiece[1], strings.Join(segs, "/"))])
-		}
-		desc := func() string {
-			var parts []string
-			for li, l := range loaders {
-				var names []string
-				for p, c := range l.files {
-					names = append(names, strings.TrimPrefix(p, root)+"="+strings.TrimPrefix(c, macroPrefix))
-				}
-				sort.Strings(names)
-				parts = append(parts, fmt.Sprintf("loader%d{%s}", li+1, strings.ReplaceAll(strings.Join(names, " ; "), root, "")))
+			if (o.Err != "") != (v.Err != "") {
+				rep.viol(key+fmt.Sprintf(": error %q, specification %q (output %q)", firstLine(o.Err), v.Err, o.Out), det)
+				continue
 			}
-			return strings.Join(parts, " ") + " root=" + strings.TrimPrefix(rootName, root)
-		}
-		key := "loaders: " + desc()
-		det := map[string]interface{}{"vector": raw, "cmd": "c11-replay"}
-		if o.Panic != "" {
-			rep.viol(key+": panic "+firstLine(o.Panic), det)
-			return
-		}
-		if strings.Contains(o.Out, "CANARY") {
-			rep.viol(key+": output contains a file that no loader serves: "+o.Out, det)
-			return
-		}
-		if (o.Err != "") != (v.Err != "") {
-			rep.viol(key+fmt.Sprintf(": error %q, specification %q (output %q)", firstLine(o.Err), v.Err, o.Out), det)
-			return
-		}
-		if o.Err == "" && o.Out != want.String() {
-			rep.viol(key+fmt.Sprintf(": rendered %q, specification %q", o.Out, want.String()), det)
-			return
-		}
-		// the loaders were asked for exactly the resolutions of the names the templates involved refer to
-		wantAsked := map[string]bool{}
-		for _, a := range v.Asked {
-			wantAsked[fmt.Sprintf("%d:/%s", a.Loader, strings.Join(a.Path, "/"))] = true
-		}
-		gotAsked := map[string]bool{}
-		for _, l := range loaders {
-			for _, g := range l.gets {
-				gotAsked[fmt.Sprintf("%d:%s", l.id, strings.TrimPrefix(g, root))] = true
+			if o.Err == "" && o.Out != want.String() {
+				rep.viol(key+fmt.Sprintf(": rendered %q, specification %q", o.Out, want.String()), det)
+				continue
 			}
-		}
-		for g := range gotAsked {
-			if !wantAsked[g] {
-				rep.viol(key+fmt.Sprintf(": loader asked for %s, which no template involved refers to (specification: %v)", g, keys(wantAsked)), det)
-				return
+			// the loaders were asked for exactly the resolutions of the names the templates involved refer to
+			wantAsked := map[string]bool{}
+			for _, a := range v.Asked {
+				wantAsked[fmt.Sprintf("%d:/%s", a.Loader, strings.Join(a.Path, "/"))] = true
 			}
-		}
-		if o.Err == "" {
-			for w := range wantAsked {
-				if !gotAsked[w] {
-					rep.viol(key+fmt.Sprintf(": loader was never asked for %s (asked: %v)", w, keys(gotAsked)), det)
-					return
+			gotAsked := map[string]bool{}
+			for _, l := range loaders {
+				for _, g := range l.gets {
+					if relFlavour {
+						g = "/" + g
+					}
+					gotAsked[fmt.Sprintf("%d:%s", l.id, strings.TrimPrefix(g, root))] = true
 				}
 			}
-		}
-		if rep.Checked%2999 == 1 {
-			rep.sample(map[string]interface{}{"setup": desc(), "output": want.String(), "error": v.Err, "asked": keys(wantAsked)})
+			for g := range gotAsked {
+				if !wantAsked[g] {
+					rep.viol(key+fmt.Sprintf(": loader asked for %s, which no template involved refers to (specification: %v)", g, keys(wantAsked)), det)
+					continue
+				}
+			}
+			if o.Err == "" {
+				for w := range wantAsked {
+					if !gotAsked[w] {
+						rep.viol(key+fmt.Sprintf(": loader was never asked for %s (asked: %v)", w, keys(gotAsked)), det)
+						continue
+					}
+				}
+			}
+			if rep.Checked%2999 == 1 {
+				rep.sample(map[string]interface{}{"setup": desc(), "output": want.String(), "error": v.Err, "asked": keys(wantAsked)})
+			}
 		}
 	})
 	rep.Distinct = rep.Checked
